@@ -133,6 +133,10 @@ def run(ctx):
     c11.slice_rule(ctx)
     c11.varint_rule(ctx)
     c11.fixedbuf_rule(ctx)
+    # what the duration / decimal readers present is what was written (shared with C03, which owns them)
+    from . import c03
+    c03.duration_rule(ctx)
+    c03.decimal_decode_rule(ctx)
     sm = ser_matrix(f)
     dm = de_matrix(f)
     ser_shapes = {k: set() for k in KINDS}
@@ -313,6 +317,47 @@ def decimal_exact_parse_rule(ctx):
                     guarded = True
             if not guarded:
                 unguarded.append('%s at %s' % (short_fn(fn_label(u)), short_loc(t.get('span'))))
+    # ... what is trimmed is the character '0', off a fractional part that ends with it; and the text retried is the
+    # integer part plus - when anything is left of the fractional part - the dot and what is left (an emptied fraction
+    # adds nothing; a non-empty one must not be dropped: "1.50000" is 1.5, not 1)
+    trims_zero, keeps_digits, n_trim = True, True, 0
+    for u in units:
+        calls = [(bb, t) for bb, t in u.calls() if not u.is_cleanup(bb)]
+        trims = [(bb, t) for bb, t in calls if 'trim_end_matches' in strip_generics(cname(t))]
+        if not trims:
+            continue
+        n_trim += len(trims)
+        for bb, t in trims + [(bb, t) for bb, t in calls if strip_generics(cname(t)).endswith('str::ends_with')]:
+            if const_int(t['args'][1]) != 48:
+                trims_zero = False
+        found = False
+        for sb in sorted(u.live_blocks()):
+            if u.term(sb)['k'] != 'switch' or u.is_cleanup(sb):
+                continue
+            so_ = origin(u, u.switch_info(sb)['op'])
+            ie = [c for c in so_.calls if strip_generics(cname(c)).endswith('is_empty')]
+            if not ie or not any(any(c2 is tt for _, tt in trims) for c2 in origin(u, ie[0]['args'][0]).calls) or 'not' in so_.flags:
+                continue
+            found = True
+            tb_ = u.term(sb)['otherwise']
+            fbs = [x['bb'] for x in u.term(sb)['targets'] if x['v'] == 0]
+            zero_t = any('assign' in s_ and s_['rv']['k'] == 'use' and const_int(s_['rv']['op']) == 0 for s_ in u.stmts(tb_))
+            plus_f = False
+            for fb_ in fbs:
+                for x_ in u.dominated_by(fb_):
+                    for s_ in u.stmts(x_):
+                        if 'assign' in s_ and s_['rv']['k'] in ('bin', 'checked_bin') and s_['rv']['op'].startswith('Add'):
+                            l_, r_ = origin(u, s_['rv']['l']), origin(u, s_['rv']['r'])
+                            if (l_.consts() == {1} and 'len' in r_.flags) or (r_.consts() == {1} and 'len' in l_.flags):
+                                plus_f = True
+            keeps_digits = keeps_digits and zero_t and plus_f
+        if not found:
+            # (a spelling that builds the text another way is judged by nothing-but-zeroes-is-zero only)
+            builds_ = any(strip_generics(cname(t)).endswith(('fmt::format', 'String::push_str', 'String::push', 'slice::<impl [T]>::concat')) for bb, t in calls)
+            keeps_digits = keeps_digits and builds_
+    ctx.ob('DECSTR', 'what-is-trimmed-is-zeroes', n_trim >= 1 and trims_zero, None, '%d trim site(s); every trim / ends_with test is on the character \'0\': %s' % (n_trim, trims_zero))
+    ctx.ob('DECSTR', 'retried-text-keeps-the-other-digits', n_trim >= 1 and keeps_digits, None,
+           'the retried text ends after the integer part when nothing is left of the fraction, after the dot and what is left otherwise: %s' % keeps_digits)
     ctx.ob('DECSTR', 'nothing-but-zeroes-is-zero', retried and n_retry >= 1 and not unguarded, None,
            '%d retry site(s) on the trimmed text; reached without a test that the trimmed text is not empty: %s' % (n_retry, unguarded or 'none'))
     ctx.ob('DECSTR', 'trailing-zeroes-are-not-digits', retried, None,
